@@ -18,7 +18,7 @@ wt = '/var/tmp/confirm-%s' % sid
 PY = '/venv/bin/python'
 
 
-def sh(cmd, cwd=None, timeout=1200):
+def sh(cmd, cwd=None, timeout=1500):
     # own session + output to a file: a test that leaves forked children behind must not be able to hang us
     import signal
     import tempfile
@@ -58,6 +58,8 @@ try:
     assert rc == 0, 'patch does not apply: ' + out
     patched, demo_out = sh([PY, 'SEEDED/x/demo.py'], wt, 600)
     summary, failed = pytest(['tests'], wt)
+    if summary == 'no summary':          # killed by the timeout (loaded machine / a test child hanging): once more
+        summary, failed = pytest(['tests'], wt)
     flaky = []
     still = []
     for t in failed:
@@ -76,7 +78,7 @@ finally:
     sh(['git', '-C', '/repo', 'worktree', 'remove', '--force', wt])
 print('seeded %s (%s): demo clean=%d patched=%d; tests with change: %s; flaky: %s; failing because of the change: %s' % (
     sid, prop, clean, patched, summary, flaky, still))
-if clean == 0 and patched == 1 and not still:
+if clean == 0 and patched == 1 and not still and summary != 'no summary':
     d = '/verif/seeded/%s' % sid
     os.makedirs(d, exist_ok=True)
     for f in ('patch.diff', 'demo.py', 'README.md'):
